@@ -627,6 +627,18 @@ Definition place (merge_ mb : bool) (contents : list content) (x : content) : re
   | None => Ok (zlen contents, 0, contents ++ [x])
   end.
 
+(* one nested union (alternative [i] of the outer one): its alternatives [il], numbered from [j] *)
+Fixpoint su_inner (merge_ mb : bool) (otags oindex itags iindex : list Z) (i j : Z) (il : list content)
+         (contents : list content) (s : st) {struct il} : res (list content * st) :=
+  match il with
+  | [] => Ok (contents, s)
+  | y :: ys =>
+      do p <- place merge_ mb contents y;
+      let '(k, base, contents') := p in
+      do s' <- simp_in s otags oindex itags iindex k j i base;
+      su_inner merge_ mb otags oindex itags iindex i (j + 1) ys contents' s'
+  end.
+
 Fixpoint su_loop (merge_ mb : bool) (otags oindex : list Z) (i : Z) (l : list content)
          (contents : list content) (s : st) {struct l} : res (list content * st) :=
   match l with
@@ -634,16 +646,7 @@ Fixpoint su_loop (merge_ mb : bool) (otags oindex : list Z) (i : Z) (l : list co
   | x :: xs =>
       match body x with
       | Union _ itags iindex ics =>
-          do r <- (fix inner (j : Z) (il : list content) (contents : list content) (s : st) {struct il}
-                   : res (list content * st) :=
-                     match il with
-                     | [] => Ok (contents, s)
-                     | y :: ys =>
-                         do p <- place merge_ mb contents y;
-                         let '(k, base, contents') := p in
-                         do s' <- simp_in s otags oindex itags iindex k j i base;
-                         inner (j + 1) ys contents' s'
-                     end) 0 ics contents s;
+          do r <- su_inner merge_ mb otags oindex itags iindex i 0 ics contents s;
           su_loop merge_ mb otags oindex (i + 1) xs (fst r) (snd r)
       | _ =>
           do p <- place merge_ mb contents x;
